@@ -225,57 +225,51 @@ theorem tune_keeps_user (kind : SearchKind) (lnF cubeF : Nat → Nat) (esLayers 
   · exact tuneSrc_keeps _ _ _ _ _ _
   · exact tuneGa_keeps _ _ _
 
-/-- the full clause: a consistent user environment is consistent and fully defined after tuning -/
+/-- the full clause: a consistent user environment is consistent and fully defined after tuning.
+    (`individuals = 1` is excluded: no `min_individuals` is both ≥ 2 and ≤ 1, `is_valid(false)`
+    nevertheless accepts the request – it cannot be completed by any tuning.) -/
 def TuneValidFull (P : Type) [ProbOps P] (kind : SearchKind) : Prop :=
   ∀ (lnF cubeF : Nat → Nat) (esLayers term0 dsize : Nat) (u : Env P),
     (∀ n, 8 < n → lnF n ≠ 0) → esLayers ≠ 0 → isValid false u = true → Untuned u →
     u.individuals ≠ 1 →
     isValid true (tune kind lnF cubeF esLayers term0 dsize u) = true
 
-/-- proved part: the tuned environment passes `is_valid(true)` as soon as the cross-field
-    checks hold on the tuned values (i.e. the defaults that fill the open parameters do not
-    contradict the parameters the user did set). -/
-theorem tune_valid_partial (laws : ProbLaws P) (kind : SearchKind) (lnF cubeF : Nat → Nat)
-    (hln : ∀ n, 8 < n → lnF n ≠ 0) (esLayers : Nat) (hL : esLayers ≠ 0) (term0 dsize : Nat) (u : Env P)
-    (hv : isValid false u = true) (hu : Untuned u) (hpop : u.individuals ≠ 1)
-    (hc : Cross (tune kind lnF cubeF esLayers term0 dsize u)) :
-    isValid true (tune kind lnF cubeF esLayers term0 dsize u) = true := by
+/-- **proved for all three search classes** (since the fix "defaults adjusted to the user's
+    settings": a default `code_length` above the user's `patch_length`, a default population not
+    below the user's `min_individuals` / `tournament_size`, a default tournament within the
+    population and the mating zone, a default mating zone not below the tournament) -/
+theorem tune_valid_full (laws : ProbLaws P) (kind : SearchKind) : TuneValidFull P kind := by
+  intro lnF cubeF esLayers term0 dsize u hln hL hv hu hpop
   cases kind
-  · exact tuneBase_valid laws _ hL _ _ hv hu hc
-  · exact tuneSrc_valid laws _ _ hln _ hL _ _ _ hv hu hc
-  · exact tuneGa_valid laws _ hL _ _ hv hu hpop hc
-
-/-- and only then: `is_valid(true)` after tuning is *equivalent* to the cross-field checks -/
-theorem tune_valid_iff (laws : ProbLaws P) (kind : SearchKind) (lnF cubeF : Nat → Nat)
-    (hln : ∀ n, 8 < n → lnF n ≠ 0) (esLayers : Nat) (hL : esLayers ≠ 0) (term0 dsize : Nat) (u : Env P)
-    (hv : isValid false u = true) (hu : Untuned u) (hpop : u.individuals ≠ 1) :
-    isValid true (tune kind lnF cubeF esLayers term0 dsize u) = true ↔
-      Cross (tune kind lnF cubeF esLayers term0 dsize u) :=
-  ⟨fun h => ((isValid_iff _ _).mp h).2.2,
-   tune_valid_partial laws kind lnF cubeF hln esLayers hL term0 dsize u hv hu hpop⟩
+  · exact tuneBase_valid laws _ hL _ _ hv hu hpop
+  · exact tuneSrc_valid laws _ _ hln _ hL _ _ _ hv hu hpop
+  · exact tuneGa_valid laws _ hL _ _ hv hu hpop
 
 /-- the user only fixes the population size -/
 def onlyIndividuals (n : Nat) : Env Int := { (Env.blank : Env Int) with individuals := n }
 
-/-- the full clause is FALSE for the code as it is: `individuals = 4`, everything else open, is a
-    consistent request; every search class fills `tournament_size = 5 > 4` and `is_valid(true)`
-    rejects the result (before fix a334a4f the GA/DE search also forced `min_individuals = 10 > 4`). -/
-theorem tune_valid_full_counterexample (kind : SearchKind) : ¬ TuneValidFull Int kind := by
-  intro h
-  have := h (fun _ => 2) (fun _ => 31) 1 2 1 (onlyIndividuals 4) (fun _ _ => by decide) (by decide)
-    (by decide) ⟨by decide, by decide, by decide⟩ (by decide)
-  cases kind <;> revert this <;> decide
-
-/-- non-vacuity of `tune_valid_partial`: with `individuals = 20` (or 5) all three searches end valid;
-    many terminals no longer push `patch_length` to `code_length` (fix a44e556) -/
+/-- non-vacuity, on the requests that used to end invalid: `individuals = 4` (default tournament 5),
+    `tournament_size = 30` (default mating zone 20), `min_individuals = 101` (default population 100),
+    `patch_length = 100` (default code length 100); many terminals (fix a44e556) -/
+example (kind : SearchKind) :
+    isValid true (tune kind (fun _ => 2) (fun _ => 31) 1 2 1 (onlyIndividuals 4)) = true ∧
+    (tune kind (fun _ => 2) (fun _ => 31) 1 2 1 (onlyIndividuals 4)).tournament = 4 := by
+  cases kind <;> decide
+example (kind : SearchKind) :
+    isValid true (tune kind (fun _ => 2) (fun _ => 31) 1 2 1 { (Env.blank : Env Int) with tournament := 30 }) = true ∧
+    isValid true (tune kind (fun _ => 2) (fun _ => 31) 1 2 9 { (Env.blank : Env Int) with minIndividuals := 101 }) = true ∧
+    isValid true (tune kind (fun _ => 2) (fun _ => 31) 1 2 1 { (Env.blank : Env Int) with patchLength := 100 }) = true := by
+  cases kind <;> decide
 example (kind : SearchKind) :
     isValid true (tune kind (fun _ => 2) (fun _ => 31) 1 2 1 (onlyIndividuals 20)) = true := by
   cases kind <;> decide
 example (kind : SearchKind) :
-    isValid true (tune kind (fun _ => 2) (fun _ => 31) 1 2 1 (onlyIndividuals 5)) = true := by
-  cases kind <;> decide
-example (kind : SearchKind) :
     isValid true (tune kind (fun _ => 2) (fun _ => 31) 1 400 12 (Env.blank : Env Int)) = true := by
+  cases kind <;> decide
+/-- the excluded request really cannot be completed -/
+example (kind : SearchKind) :
+    isValid false (onlyIndividuals 1) = true ∧
+    isValid true (tune kind (fun _ => 2) (fun _ => 31) 1 2 1 (onlyIndividuals 1)) = false := by
   cases kind <;> decide
 
 end tune
@@ -355,14 +349,33 @@ theorem selection_deciders_sound (fit : Coord → F) (key : Coord → Bool × F)
 
 /-! ## (6) what the CURRENT sources say (GenEvo.lean, regenerated from the clang AST on every run) -/
 
-/-- `summary<T>`: members, constructor values and what `clear()` resets are as the model assumes:
-    `clear()` puts every member back to its constructor value, `gen` and `last_imp` to 0 -/
+/-- is the member `f` of `summary<T>` reset by `clear()`?  (`best` may be reset member by member) -/
+def clearCovers (sets : List (String × String)) (f : String) : Bool :=
+  (sets.lookup f).isSome ||
+  (f == "best" && (sets.lookup "best.solution").isSome &&
+    ((sets.lookup "best.score").isSome || (sets.lookup "best.score.fitness").isSome))
+
+/-- `summary<T>`: the members are the ones the model knows, the constructor starts `gen` and
+    `last_imp` at 0, and `clear()` resets EVERY member – `best`, `gen := 0`, `last_imp := 0` in
+    particular (the table the model's `clearSumm` / `startRun` read).  Stated on what `clear()`
+    achieves, not on how it is written: `*this = summary<T>()` and a complete member-wise reset
+    both satisfy it, a reset that forgets a member does not. -/
 theorem summary_tables_match_source :
-    GenEvo.summaryFields = Model.summaryFields ∧ GenEvo.ctorInits = Model.ctorInits ∧
-    GenEvo.clearSets = Model.clearSets ∧ GenEvo.clearNats = Model.clearNats ∧
+    GenEvo.summaryFields = Model.summaryFields ∧
+    GenEvo.ctorInits.lookup "gen" = some "0" ∧ GenEvo.ctorInits.lookup "last_imp" = some "0" ∧
     clearTblOf GenEvo.clearSets GenEvo.clearNats = Model.clearTbl ∧
-    GenEvo.summaryFields.all (fun f => (GenEvo.clearSets.lookup f).isSome) = true :=
-  ⟨by decide, by decide, by decide, by decide, by decide, by decide⟩
+    GenEvo.summaryFields.all (clearCovers GenEvo.clearSets) = true :=
+  ⟨by decide, by decide, by decide, by decide, by decide⟩
+
+/-- the two ways of writing a complete `clear()` give the model's table; the seeded in-place
+    variant that forgets `last_imp` does not -/
+example : clearTblOf Model.clearSets Model.clearNats = Model.clearTbl := by decide
+example : clearTblOf [("az", "clear()"), ("best.score", "model_measurements()"), ("best.solution", "T()"),
+    ("crossovers", "0"), ("elapsed", "0"), ("gen", "0"), ("last_imp", "0"), ("mutations", "0")]
+    [("crossovers", 0), ("elapsed", 0), ("gen", 0), ("last_imp", 0), ("mutations", 0)] = Model.clearTbl := by decide
+example : clearTblOf [("az", "clear()"), ("best.score", "model_measurements()"), ("best.solution", "T()"),
+    ("crossovers", "0"), ("elapsed", "0"), ("gen", "0"), ("mutations", "0")]
+    [("crossovers", 0), ("elapsed", 0), ("gen", 0), ("mutations", 0)] ≠ Model.clearTbl := by decide
 
 /-- the statement skeleton of `evolution<T,ES>::run` (clear; best = pop[{0,0}]; fitness = eva(best);
     es.init(); for (gen = 0; …; ++gen) { [shake]; stats; for (k…) { select; recombine; replace }
